@@ -404,6 +404,7 @@ def extra_streams(ctx, hs):
             diffs = differential_mp(ctx, hstr, C.driver_path(DRIVER), ss, 60 if quick else 240)
             ctx.log(f"string keys: {len(ss)} histories, {ctx.cov['evaluations'] - before} op lines, {len(diffs)} disagreement(s)")
             ctx.cov["string_key_histories"] = len(ss)
+            ctx.cov["rule"] += (f"; + {len(ss)} histories on the build with nstd String keys (library hash(const String&) and operator==; key texts collide in 3 classes)")
             C.report_diffs(ctx, diffs, hstr, C.driver_path(DRIVER), reference, C.default_eq, "hash-ops-string-keys")
     finally:
         if hstr is not None:
@@ -420,6 +421,7 @@ def extra_streams(ctx, hs):
             diffs = differential_mp(ctx, hopt, C.driver_path(DRIVER), oo, 60 if quick else 240)
             ctx.log(f"-O2 build: {len(oo)} histories, {ctx.cov['evaluations'] - before} op lines, {len(diffs)} disagreement(s)")
             ctx.cov["o2_build_histories"] = len(oo)
+            ctx.cov["rule"] += f"; + {len(oo)} of the histories again on a -O2 build without sanitizers"
             C.report_diffs(ctx, diffs, hopt, C.driver_path(DRIVER), reference, C.default_eq, "hash-ops-O2")
     finally:
         if hopt is not None:
